@@ -227,10 +227,34 @@ def _traversal(repo):
             and re.search(r"collected_kwargs\.insert\(Value::from\(\*key\), c\.value\.clone\(\)\);", ca)
             and re.search(r"self\.add\(Instruction::LoadConst\(Kwargs::wrap\(collected_kwargs\)\)\);", ca)):
         specials.append("static-kwargs")
+    # the interaction of the static keyword arguments with the `caller` of a `{% call %}` block
+    init = re.search(r"let mut static_kwargs = ([^;]+);", ca)
+    if init and _norm(init.group(1)) == "caller.is_none()":
+        specials.append("static-kwargs-off-for-caller")
+    hk = re.search(r"let mut has_kwargs = ([^;]+);", ca)
+    if hk and _norm(hk.group(1)) == "caller.is_some()":
+        specials.append("caller-forces-kwargs")
+    if re.search(r"if let Some\(caller\) = caller \{\s*self\.add\(Instruction::LoadConst\(Value::from\(\"caller\"\)\)\);\s*"
+                 r"self\.compile_macro_expression\(caller\);\s*pending_kwargs \+= 1;?\s*\}", ca):
+        specials.append("caller-appended-last")
     # every other compile-time evaluation in the code generator would go through one of these
     others = len(re.findall(r"as_const\(\)", cg))
-    lean = ("def exprVariants : List String := [" + ", ".join(map(lean_str, variants)) + "]\n"
+    # who calls the const-sensitive helpers, and with which `extra_args` / `caller`
+    def sites(pattern):
+        rows = []
+        for m in re.finditer(pattern, cg):
+            fns = re.findall(r"fn (\w+)\s*[(<]", cg[:m.start()])
+            rows.append((fns[-1] if fns else "?", ":".join(_norm(g) for g in m.groups())))
+        return rows
+    args_sites = sites(r"self\.compile_call_args\(\s*[^,]+,\s*(\w+),\s*(\w+)\s*,?\s*\)")
+    call_sites = sites(r"self\.compile_call\(\s*[^,]+,\s*((?:Some\([^)]*\))|\w+)\s*,?\s*\)")
+    call_sites = [(f, "Some" if a.startswith("Some(") else a) for f, a in call_sites]
+    if not args_sites or not call_sites:
+        raise KeyError("call sites of compile_call_args / compile_call")
+    lean = (_rows("callArgsSites", sorted(set(args_sites))) + "\n" + _rows("callSites", sorted(set(call_sites))) + "\n" +
+            "def exprVariants : List String := [" + ", ".join(map(lean_str, variants)) + "]\n"
             "def asConstArms : List String := [" + ", ".join(map(lean_str, arms)) + "]\n"
             "def codegenSpecials : List String := [" + ", ".join(map(lean_str, specials)) + "]\n"
             f"def codegenAsConstUses : Nat := {others}")
-    return {"variants": variants, "arms": arms, "specials": specials, "as_const_uses": others}, lean
+    return {"variants": variants, "arms": arms, "specials": specials, "as_const_uses": others,
+            "call_args_sites": sorted(set(args_sites)), "call_sites": sorted(set(call_sites))}, lean
